@@ -732,13 +732,16 @@ class C03(Prop):
     id = 'C03'
     props_file = 'Props/C03.v'
     imports = ['Model.Wake', 'Model.WakeObs']
-    quick_n = 1000
+    quick_n = 900
     thorough_n = 4000
     rule = ('real Manager.run() thread + 1-3 real firing threads (1-3 events each) stepped line by line under a '
-            'scheduler: fallback generator / Select / Poll / EPoll waiter, with and without a timer-like '
-            'generate_events handler; schedules: sticky runs with 0-3 pre-emptions at sampled step indices (all thread '
-            'orders), coarse single pre-emptions at every loop step, random walks with stickiness 0.5-0.95. '
-            'non-trivial = at least one foreign append happens while the loop is inside a tick (not parked)')
+            'scheduler: fallback generator / Select / Poll / EPoll waiter, each without and with a timer-like '
+            'generate_events handler (untimed and timed wait/select); schedules: systematic sweeps for all 8 '
+            'configurations (a whole fire() after every visible loop action of start-up + first tick and of the tick '
+            'processing the first wake-up; at every source line / lock / Event / select step of the generate_events '
+            'handling), sampled windows, sticky runs with 0-3 pre-emptions in all thread orders, random walks with '
+            'stickiness 0.5-0.95. non-trivial = a firing-thread step is directly followed by a loop step that is not '
+            'the return of its idle wait')
     trusted_base = ['hand-written protocol model Model/Wake.v tied to /repo by replaying every observed trace (accepts)',
                     'scheduler, lock/Event/select/pipe doubles and source-line anchors in harness/c03.py',
                     'CPython executes one source line of the instrumented functions without a thread switch '
